@@ -227,10 +227,11 @@ fn c18(seed: u64, cases: usize, model_path: &str) -> serde_json::Value {
         let n = r.range(2, 3) as usize; let g = r.range(1, 8) as usize; let a = r.below(g as u64 + 1) as usize;
         let (good, _) = circ::generate(&mut r, n, g, a);
         let inputs: Vec<Vec<bool>> = good.input_regs.iter().map(|k| (0..*k).map(|_| r.bool()).collect()).collect();
-        let own = r.below(n as u64) as usize; let far = [n, n + 1, 1000, usize::MAX][r.below(4) as usize];
+        let own = r.below(n as u64) as usize; // indices beyond the parties: just beyond, far beyond, and values whose LOW 32 bits name a real party (a narrowing cast would accept them)
+        let far = if case < 6 { [1usize << 32, (1usize << 32) | (n - 1), (1usize << 48) | (case % n), (1usize << 63) | 1, usize::MAX - 1, (1usize << 32) + n][case] } else { [n, n + 1, 1000, usize::MAX, (1usize << 32) | r.below(n as u64) as usize, (1usize << 40) | r.below(n as u64) as usize][r.below(6) as usize] };
         // ---- (1) one invalid argument, otherwise valid; single party alone
         let mut c = good.clone(); let mut inp = inputs[own].clone(); let (mut pe, mut po, mut me) = (r.below(n as u64) as usize, vec![r.below(n as u64) as usize], own);
-        let class = ["own_index", "p_eval", "p_out_index", "input_len", "p_out_empty", "circ_no_outputs", "circ_out_reg_range", "circ_read_before_write", "circ_input_position", "circ_inst_out_range"][r.below(10) as usize];
+        let class = if case < 6 { ["p_eval", "p_out_index", "own_index"][case % 3] } else { ["own_index", "p_eval", "p_out_index", "input_len", "p_out_empty", "circ_no_outputs", "circ_out_reg_range", "circ_read_before_write", "circ_input_position", "circ_inst_out_range"][r.below(10) as usize] };
         match class {
             "own_index" => me = far, "p_eval" => pe = far, "p_out_index" => po.push(far), "p_out_empty" => po.clear(),
             "input_len" => { if r.bool() || inp.is_empty() { inp.push(true) } else { inp.pop(); } }
